@@ -1118,6 +1118,11 @@ func (tc *typechecker) makeMacroResultExplicit(macro *ast.Func) {
 // checkFunc checks a function.
 func (tc *typechecker) checkFunc(node *ast.Func) {
 
+	// The termination analysis of the function body must not affect the one
+	// of the statement that contains the function.
+	terminating := tc.terminating
+	defer func() { tc.terminating = terminating }()
+
 	tc.scopes.Enter(node)
 	tc.addToAncestors(node)
 
